@@ -1,32 +1,39 @@
 (* PoolDefs.v — interleaving model of cocls::thread_pool (thread_pool.h, function.h) for C11.
-   Threads = clients (tid 0..m-1; client 0 also runs the destructor) followed by the pool's workers.
+   Threads = clients (tid 0..m-1; client 0 also runs the destructor) followed by the pool's own workers.
    One model step = one critical section of the pool mutex (the code from one lock acquisition up to the
    thread's next lock acquisition / blocking wait), exactly the granularity of the ctl_pool harness:
-     point 60  p_lock : a thread is about to lock _mx (enqueue :354, worker :54/:64, stop :76)
-     point 61  p_wait : a worker sleeping in _cond.wait (:56) consumes a notification
-     point 62  p_join : stop() joins one swapped-out worker (:90); enabled when that worker has exited
-     point  9  xwait  : client 0 waits for the object-lifetime rule before running ~thread_pool
-   The condition variable is modelled by a token counter: notify_one adds a token while fewer tokens than
-   sleepers exist, notify_all sets tokens := sleepers; a sleeper needs a token to wake (and re-tests the wait
-   predicate, going back to sleep when it is false).  Which sleeper takes a token is left to the schedule, so
-   every choice the OS could make is covered.
-   Model only, no proofs. *)
+     point 60  p_lock : a thread is about to lock _mx (enqueue, worker loop, stop (twice), is_stopped, any_enqueued)
+     point 61  p_wait : a thread sleeping in _cond.wait consumes a notification (worker loop; stop() waiting for
+                        a concurrent stop())
+     point 62  p_join : stop() joins one swapped-out worker; enabled when that worker has left worker()
+     point 63  p_peek : thread_pool::current's await_ready reads _current->_exit (without the lock)
+     point  9  xwait  : client 0 waits until every other client thread has returned, then runs ~thread_pool
+   The condition variable: notify_all flags every thread that is sleeping at that moment (`woken`); notify_one
+   adds an anonymous token while fewer tokens than unflagged sleepers exist (a notify_all subsumes pending tokens).  A sleeper wakes by clearing its flag
+   or else by taking a token, re-tests its wait predicate and goes back to sleep when it is false.  Which sleeper
+   takes a token is left to the schedule, so every choice the OS could make for notify_one (and spurious wake-ups
+   that find the predicate false) is covered; a thread that starts to sleep after a notify_all is not woken by it.
+   Line numbers refer to thread_pool.h with hooks and the C11 fixes applied.  Model only, no proofs. *)
 From Cocls Require Import Base.
 Local Open Scope Z_scope.
 
-(* What a queued closure is, i.e. what running it / destroying it un-run does (thread_pool.h):
-   KHop      co_await pool            :113-137  unique_ptr deleter resumes the coroutine with 'cancelled'
-   KAwt      co_await pool(awaitable) :163-167  perform_resume -> resume(suspend_point): bare [h] lambda :208
-   KRunFn    run(fn)                  :262-278  closure owns the promise: destroyed => broken promise
-   KDet      run_detached(fn)         :250-252  closure owns the function object
-   KResume   resume(suspend_point)    :205-213  bare [h] lambda: destroyed => the handle is forgotten
-   KRunAsync run(async)               :289-293  (after fix C11-run-async) closure owns coroutine + promise *)
+(* What a queued closure is, i.e. what running it / destroying it un-run does:
+   KHop      co_await pool (and co_await thread_pool::current())   unique_ptr deleter resumes the coroutine with 'cancelled'
+   KAwt      co_await pool(awaitable)     perform_resume -> resume(suspend_point)
+   KRunFn    run(fn)                      closure owns the promise: destroyed => broken promise
+   KDet      run_detached(fn)             closure owns the function object
+   KResume   resume(suspend_point)        closure owns the handle: destroyed => coroutine resumed by the destroying thread (fix C11-resume)
+   KRunAsync run(async)                   closure owns coroutine + promise (fix C11-run-async)
+   After the two fixes destruction of an un-run closure reaches the waiter for every kind. *)
 Inductive ckind := KHop | KAwt | KRunFn | KDet | KResume | KRunAsync.
-(* does destruction of the un-run closure reach the waiter? *)
-Definition owned (k : ckind) : bool := match k with KAwt | KResume => false | _ => true end.
 
-(* what the job does when it runs: nothing / submit one more closure / call stop() on its own pool *)
-Inductive body := BNone | BSub (k : ckind) (lbl : nat) | BStop.
+(* what a job does when it runs: a list of pool operations *)
+Inductive act :=
+| ASub (k : ckind) (lbl : nat)   (* submit one more closure (its own body is empty); run_detached from a worker is ASub KDet *)
+| AStop                          (* stop() on its own pool *)
+| AQry (q : nat)                 (* 0: current::is_stopped()   1: current::any_enqueued() *)
+| ACurHop (lbl : nat).           (* co_await thread_pool::current(): the rest of the body continues as the hop's body *)
+Definition body := list act.
 
 Record clo := mkClo {
   clbl : nat;      (* label of the submission in the case file (observation only) *)
@@ -38,158 +45,242 @@ Record clo := mkClo {
   ccanc : nat      (* times a cancellation reached the waiter *)
 }.
 
-Inductive cop := OSub (lbl : nat) (k : ckind) (b : body) | OStop.
+Inductive cop := OSub (lbl : nat) (k : ckind) (b : body) | OStop | OWorker.
 (* what the thread does when its stop() returns *)
-Inductive after := AClient (prog : list cop) | ADtor | AWorker (det : bool).
+Inductive after := AClient (prog : list cop) | ADtor | AWorker (det : bool) (r : body).
 
 Inductive pc :=
-| CAt (prog : list cop)       (* client at the p_lock point of the head operation *)
-| CXWait                      (* client 0: all operations issued; waits until the pool may be destroyed *)
-| CDtor                       (* client 0 at the p_lock point of ~thread_pool -> stop() *)
+| CAt (prog : list cop)        (* client at the first lock acquisition of the head operation *)
+| CXWait                       (* client 0: all operations issued; waits until the pool may be destroyed *)
+| CDtor                        (* client 0 at the p_lock point of ~thread_pool -> stop() *)
 | CDone
-| WIdle                       (* worker at p_lock: first lock :54 or re-lock after a job :64 *)
-| WSleep                      (* worker inside _cond.wait :56 *)
-| WSub (lbl : nat) (k : ckind) (* worker inside a job, at the p_lock point of enqueue *)
-| WStop                       (* worker inside a job, at the p_lock point of stop() *)
-| WExit                       (* worker left worker() (also: detached itself and returned) *)
-| Join (l q : list nat) (a : after).  (* inside stop(): joining head of l; q = swapped-out queue *)
+| WIdle                        (* in worker() at p_lock: first lock or re-lock after a job *)
+| WSleep                       (* in worker() inside _cond.wait *)
+| WSub (lbl : nat) (k : ckind) (r : body)   (* inside a job, at the p_lock point of enqueue; r = rest of the body *)
+| WHop (lbl : nat) (r : body)  (* inside a job, at the p_lock point of the current-pool hop's enqueue; r becomes the hop's body *)
+| WPeek (lbl : nat) (r : body) (* inside a job, at p_peek of current::await_ready *)
+| WStop (r : body)             (* inside a job, at the p_lock point of stop() *)
+| WQry (q : nat) (r : body)    (* inside a job, at the p_lock point of is_stopped / any_enqueued *)
+| WExit                        (* pool thread left worker() (also: detached itself and returned) *)
+| Join (l q : list nat) (first : bool) (a : after)   (* inside stop(): joining head of l; q = swapped-out queue *)
+| SWait (l q : list nat) (a : after)   (* inside stop(): somebody else is stopping the pool; sleeping in _cond.wait until _stopped *)
+| SFin (a : after).            (* inside the first stop(): joins done, tasks cancelled; at the p_lock point before _stopped = true *)
 
 Record st := mkSt {
   queue : list nat;        (* _queue: closure ids *)
   exit_ : bool;            (* _exit *)
+  stopped : bool;          (* _stopped: the first stop() has joined every worker *)
   threads : list nat;      (* _threads: tids of joinable workers *)
-  tokens : nat;            (* pending condition-variable wake-ups *)
+  tokens : nat;            (* pending notify_one wake-ups *)
+  woken : list nat;        (* sleepers flagged by a notify_all *)
   destroyed : bool;        (* ~thread_pool has returned *)
   nclients : nat;
   clos : list clo;         (* every closure ever handed to enqueue, in that order *)
-  thrs : list pc
+  thrs : list pc;
+  cont : list (list cop);  (* per client: the operations that follow its worker() call *)
+  extw : list nat;         (* ghost: client tids that have called worker() (their _current is the pool from then on) *)
+  uad : bool               (* ghost: a thread started a pool operation after ~thread_pool had returned *)
 }.
 
-Definition ev := (nat * Z * nat)%type.   (* label, 1 = invoked / 2 = cancelled, tid *)
+Definition ev := (nat * Z * nat)%type.   (* label (or query result), 1 = invoked / 2 = cancelled / 10+q = query, tid *)
 
 Definition with_thr (s : st) (i : nat) (p : pc) : st :=
-  mkSt (queue s) (exit_ s) (threads s) (tokens s) (destroyed s) (nclients s) (clos s) (set_nth (thrs s) i p).
+  mkSt (queue s) (exit_ s) (stopped s) (threads s) (tokens s) (woken s) (destroyed s) (nclients s) (clos s) (set_nth (thrs s) i p)
+       (cont s) (extw s) (uad s).
 Definition with_clos (s : st) (c : list clo) : st :=
-  mkSt (queue s) (exit_ s) (threads s) (tokens s) (destroyed s) (nclients s) c (thrs s).
+  mkSt (queue s) (exit_ s) (stopped s) (threads s) (tokens s) (woken s) (destroyed s) (nclients s) c (thrs s) (cont s) (extw s) (uad s).
 Definition with_queue (s : st) (q : list nat) : st :=
-  mkSt q (exit_ s) (threads s) (tokens s) (destroyed s) (nclients s) (clos s) (thrs s).
+  mkSt q (exit_ s) (stopped s) (threads s) (tokens s) (woken s) (destroyed s) (nclients s) (clos s) (thrs s) (cont s) (extw s) (uad s).
 Definition with_tokens (s : st) (n : nat) : st :=
-  mkSt (queue s) (exit_ s) (threads s) n (destroyed s) (nclients s) (clos s) (thrs s).
+  mkSt (queue s) (exit_ s) (stopped s) (threads s) n (woken s) (destroyed s) (nclients s) (clos s) (thrs s) (cont s) (extw s) (uad s).
+Definition with_woken (s : st) (w : list nat) : st :=
+  mkSt (queue s) (exit_ s) (stopped s) (threads s) (tokens s) w (destroyed s) (nclients s) (clos s) (thrs s) (cont s) (extw s) (uad s).
+Definition with_uad (s : st) (b : bool) : st :=
+  mkSt (queue s) (exit_ s) (stopped s) (threads s) (tokens s) (woken s) (destroyed s) (nclients s) (clos s) (thrs s) (cont s) (extw s) b.
+(* a client thread enters worker(): remember what it does afterwards *)
+Definition with_ext (s : st) (i : nat) (r : list cop) : st :=
+  mkSt (queue s) (exit_ s) (stopped s) (threads s) (tokens s) (woken s) (destroyed s) (nclients s) (clos s) (thrs s)
+       (set_nth (cont s) i r) (i :: extw s) (uad s).
+(* stop(): the first critical section *)
+Definition marked (s : st) (wk : list nat) : st :=
+  mkSt [] true (stopped s) [] 0 wk (destroyed s) (nclients s) (clos s) (thrs s) (cont s) (extw s) (uad s).
+(* stop(): the last critical section of the first stop *)
+Definition finished (s : st) (wk : list nat) : st :=
+  mkSt (queue s) (exit_ s) true (threads s) 0 wk (destroyed s) (nclients s) (clos s) (thrs s) (cont s) (extw s) (uad s).
+Definition dead (s : st) : st :=
+  mkSt [] (exit_ s) (stopped s) (threads s) (tokens s) (woken s) true (nclients s) (clos s) (thrs s) (cont s) (extw s) (uad s).
 
-Definition is_sleep (p : pc) : bool := match p with WSleep => true | _ => false end.
+Definition is_sleep (p : pc) : bool := match p with WSleep | SWait _ _ _ => true | _ => false end.
 Definition sleepers (s : st) : nat := length (filter is_sleep (thrs s)).
+Definition sleeps (s : st) (i : nat) : bool := match nth_error (thrs s) i with Some p => is_sleep p | None => false end.
+(* the threads a notify_all wakes *)
+Definition sleeper_ids (s : st) : list nat := filter (sleeps s) (seq 0 (length (thrs s))).
+Definition is_woken (s : st) (i : nat) : bool := existsb (Nat.eqb i) (woken s).
+(* thread i leaves _cond.wait: by its notify_all flag, else by a notify_one token *)
+Definition wake (s : st) (i : nat) : st :=
+  if is_woken s i then with_woken s (filter (fun j => negb (Nat.eqb j i)) (woken s))
+  else with_tokens s (pred (tokens s)).
 
-(* destruction of closure object c, which was never invoked, on thread t *)
+(* destruction of closure object c, which was never invoked, on thread t: the waiter is cancelled *)
 Definition drop_clo (x : clo) : clo :=
-  mkClo (clbl x) (ck x) (cb x) (cran x) (cran_on x) (S (cdrop x)) (if owned (ck x) then S (ccanc x) else ccanc x).
+  mkClo (clbl x) (ck x) (cb x) (cran x) (cran_on x) (S (cdrop x)) (S (ccanc x)).
 Definition drop1 (t : nat) (se : st * list ev) (c : nat) : st * list ev :=
   match nth_error (clos (fst se)) c with
-  | Some x => (with_clos (fst se) (set_nth (clos (fst se)) c (drop_clo x)),
-               snd se ++ (if owned (ck x) then [(clbl x, 2, t)] else []))
+  | Some x => (with_clos (fst se) (set_nth (clos (fst se)) c (drop_clo x)), snd se ++ [(clbl x, 2, t)])
   | None => se
   end.
 Definition drop_all (t : nat) (s : st) (l : list nat) : st * list ev := fold_left (drop1 t) l (s, []).
 
-(* enqueue(), thread_pool.h:353-359, called by thread t *)
+(* enqueue(), called by thread t *)
 Definition enqueue (s : st) (t : nat) (lbl : nat) (k : ckind) (b : body) : st * list ev :=
   let c := length (clos s) in
   let s1 := with_clos s (clos s ++ [mkClo lbl k b 0 0 0 0]) in
   if exit_ s then
-    (* :355 not moved from: the temporary q_item dies in the caller, after the lock was released *)
+    (* not moved from: the temporary q_item dies in the caller, after the lock was released *)
     drop1 t (s1, []) c
   else
-    (* :356-357 push + notify_one *)
+    (* push + notify_one *)
     (with_tokens (with_queue s1 (queue s ++ [c]))
-                 (if Nat.ltb (tokens s) (sleepers s) then S (tokens s) else tokens s), []).
+                 (if Nat.ltb (tokens s + length (woken s)) (sleepers s) then S (tokens s) else tokens s), []).
 
 Definition next_client (i : nat) (prog : list cop) : pc :=
   match prog with [] => if Nat.eqb i 0 then CXWait else CDone | _ => CAt prog end.
 
-(* end of stop(): the local queue q dies (:93, after all joins), then the caller continues *)
-Definition stop_end (s : st) (t : nat) (q : list nat) (a : after) : st * list ev :=
-  let '(s1, e) := drop_all t s q in
-  match a with
-  | AClient prog => (with_thr s1 t (next_client t prog), e)
-  | ADtor =>
-      (* members die: anything left in _queue is destroyed with it *)
-      let '(s2, e2) := drop_all t s1 (queue s1) in
-      (with_thr (mkSt [] (exit_ s2) (threads s2) (tokens s2) true (nclients s2) (clos s2) (thrs s2)) t CDone, e ++ e2)
-  | AWorker true => (with_thr s1 t WExit, e)     (* :87 _current = nullptr, :63 return *)
-  | AWorker false => (with_thr s1 t WIdle, e)    (* job returns, :64 re-lock *)
+(* a job continues with the rest of its body: the next pool operation, or the re-lock of the worker loop *)
+Definition job_next (r : body) : pc :=
+  match r with
+  | [] => WIdle
+  | ASub k l :: r' => WSub l k r'
+  | AStop :: r' => WStop r'
+  | AQry q :: r' => WQry q r'
+  | ACurHop l :: r' => WPeek l r'
   end.
 
-(* stop() :72-81: the critical section; the join loop :83-92 follows *)
+(* stop() returns *)
+Definition pc_after (t : nat) (a : after) : pc :=
+  match a with
+  | AClient prog => next_client t prog
+  | ADtor => CDone
+  | AWorker true _ => WExit          (* _current = nullptr: the job must not touch the pool any more, worker() returns *)
+  | AWorker false r => job_next r
+  end.
+Definition returned (s : st) (t : nat) (a : after) : st * list ev :=
+  match a with
+  | ADtor =>
+      (* members die: anything left in _queue is destroyed with it *)
+      let '(s1, e) := drop_all t s (queue s) in (with_thr (dead s1) t CDone, e)
+  | _ => (with_thr s t (pc_after t a), [])
+  end.
+
+(* end of the join loop: the first stop cancels the swapped-out tasks and goes for _stopped = true *)
+Definition stop_end (s : st) (t : nat) (q : list nat) (first : bool) (a : after) : st * list ev :=
+  let '(s1, e) := drop_all t s q in
+  if first then (with_thr s1 t (SFin a), e)
+  else let '(s2, e2) := returned s1 t a in (s2, e ++ e2).
+
+(* is the calling thread one of the pool's threads (thread_local _current == this)?  Exactly the threads that are
+   inside worker(): _current is set on entry and reset on exit (and by a self-detaching stop), so a stop() issued by
+   a job is called with _current == this and a stop() issued by a client program (or the destructor) is not. *)
+Definition is_cur (a : after) : bool := match a with AWorker _ _ => true | _ => false end.
+
+(* the join loop of stop() *)
+Definition after_wait (s : st) (t : nat) (l q : list nat) (first : bool) (a : after) : st * list ev :=
+  match l with
+  | [] => stop_end s t q first a
+  | _ => (with_thr s t (Join l q first a), [])
+  end.
+
+(* stop(): the first critical section *)
 Definition stop_mark (s : st) (t : nat) (a : after) : st * list ev :=
   let tmp := threads s in
   let q := queue s in
-  let l := filter (fun w => negb (Nat.eqb w t)) tmp in       (* :84-88 own entry: detach, not join *)
-  let a' := match a with AWorker _ => AWorker (existsb (Nat.eqb t) tmp) | _ => a end in
-  let s1 := mkSt [] true [] (sleepers s) (destroyed s) (nclients s) (clos s) (thrs s) in   (* :77-80 *)
-  match l with
-  | [] => stop_end s1 t q a'
-  | _ => (with_thr s1 t (Join l q a'), [])
-  end.
+  let first := negb (exit_ s) in
+  let l := filter (fun w => negb (Nat.eqb w t)) tmp in       (* own entry: detach, not join *)
+  let a' := match a with AWorker _ r => AWorker (existsb (Nat.eqb t) tmp) r | _ => a end in
+  let s1 := marked s (sleeper_ids s) in                          (* _exit = true; notify_all; swap; swap *)
+  if negb first && negb (is_cur a) && negb (stopped s) then
+    (with_thr s1 t (SWait l q a'), [])                        (* somebody else is stopping: _cond.wait until _stopped *)
+  else after_wait s1 t l q first a'.
 
-(* the job c starts on worker w (:61) and runs up to its first lock acquisition *)
+(* the job c starts on thread w and runs up to its first pool operation *)
 Definition run_job (s : st) (w : nat) (c : nat) : st * list ev :=
   match nth_error (clos s) c with
   | Some x =>
       let x' := mkClo (clbl x) (ck x) (cb x) (S (cran x)) w (cdrop x) (ccanc x) in
-      (with_thr (with_clos s (set_nth (clos s) c x')) w
-                (match cb x with BNone => WIdle | BSub k l => WSub l k | BStop => WStop end),
-       [(clbl x, 1, w)])
+      (with_thr (with_clos s (set_nth (clos s) c x')) w (job_next (cb x)), [(clbl x, 1, w)])
   | None => (with_thr s w WIdle, [])
   end.
 
-(* worker(), :56-60 with the lock held and the wait predicate just evaluated *)
+(* worker() returns: a pool thread ends, a client thread continues its program *)
+Definition exit_pc (s : st) (w : nat) : pc :=
+  if Nat.ltb w (nclients s) then next_client w (nth w (cont s) []) else WExit.
+
+(* worker(), with the lock held and the wait predicate just evaluated *)
 Definition worker_cs (s : st) (w : nat) : st * list ev :=
-  if exit_ s then (with_thr s w WExit, [])          (* :57 *)
+  if exit_ s then (with_thr s w (exit_pc s w), [])
   else match queue s with
-       | [] => (with_thr s w WSleep, [])            (* :56 predicate false *)
-       | c :: r => run_job (with_queue s r) w c     (* :58-61 *)
+       | [] => (with_thr s w WSleep, [])
+       | c :: r => run_job (with_queue s r) w c
        end.
 
 Definition is_wexit (s : st) (w : nat) : bool :=
   match nth_error (thrs s) w with Some WExit => true | _ => false end.
 
-(* object-lifetime rule for ~thread_pool: every other client has returned and no stop() issued by a job is
-   pending, in progress or still to come (a queued job whose body is stop()) *)
-Definition stopping (p : pc) : bool :=
-  match p with WStop => true | Join _ _ (AWorker _) => true | _ => false end.
-Definition client_busy (p : pc) : bool :=
-  match p with CAt _ | Join _ _ (AClient _) | CDtor | Join _ _ ADtor => true | _ => false end.
-Definition is_bstop (s : st) (c : nat) : bool :=
-  match nth_error (clos s) c with Some x => match cb x with BStop => true | _ => false end | None => false end.
-Definition xwait_ok (s : st) : bool :=
-  negb (existsb client_busy (thrs s)) && negb (existsb stopping (thrs s)) && negb (existsb (is_bstop s) (queue s)).
+(* object-lifetime rule for ~thread_pool: every other client thread has returned from its calls *)
+Definition client_idle (p : pc) : bool := match p with CDone | CXWait => true | _ => false end.
+Definition xwait_ok (s : st) : bool := forallb client_idle (firstn (nclients s) (thrs s)).
 
 Definition enabled (s : st) (i : nat) : bool :=
   match nth_error (thrs s) i with
-  | Some (CAt _) | Some CDtor | Some WIdle | Some (WSub _ _) | Some WStop => true
+  | Some (CAt _) | Some CDtor | Some WIdle | Some (WSub _ _ _) | Some (WHop _ _) | Some (WPeek _ _)
+  | Some (WStop _) | Some (WQry _ _) | Some (SFin _) => true
   | Some CXWait => xwait_ok s
-  | Some WSleep => Nat.ltb 0 (tokens s)
-  | Some (Join (w :: _) _ _) => is_wexit s w
-  | Some (Join [] _ _) => true
+  | Some WSleep | Some (SWait _ _ _) => Nat.ltb 0 (tokens s) || is_woken s i
+  | Some (Join (w :: _) _ _ _) => is_wexit s w
+  | Some (Join [] _ _ _) => true
   | Some CDone | Some WExit | None => false
   end.
 
+(* does the step of a thread at this pc use the pool object? (join and the lifetime wait do not) *)
+Definition touches (p : pc) : bool :=
+  match p with
+  | CAt (_ :: _) | CDtor | WIdle | WSleep | WSub _ _ _ | WHop _ _ | WPeek _ _ | WStop _ | WQry _ _ | SWait _ _ _ | SFin _ => true
+  | _ => false
+  end.
+
+Definition qry_result (s : st) (q : nat) : bool :=
+  match q with O => exit_ s | _ => exit_ s || negb (match queue s with [] => true | _ => false end) end.
+
 (* one step of thread i: new state, point code, events *)
-Definition tstep (s : st) (i : nat) : st * Z * list ev :=
+Definition core (s : st) (i : nat) : st * Z * list ev :=
   match nth_error (thrs s) i with
   | Some (CAt (OSub l k b :: r)) =>
       let '(s1, e) := enqueue s i l k b in (with_thr s1 i (next_client i r), 60, e)
   | Some (CAt (OStop :: r)) => let '(s1, e) := stop_mark s i (AClient r) in (s1, 60, e)
+  | Some (CAt (OWorker :: r)) => let '(s1, e) := worker_cs (with_ext s i r) i in (s1, 60, e)
   | Some (CAt []) => (with_thr s i (next_client i []), 60, [])
   | Some CXWait => (with_thr s i CDtor, 9, [])
   | Some CDtor => let '(s1, e) := stop_mark s i ADtor in (s1, 60, e)
   | Some WIdle => let '(s1, e) := worker_cs s i in (s1, 60, e)
-  | Some WSleep => let '(s1, e) := worker_cs (with_tokens s (pred (tokens s))) i in (s1, 61, e)
-  | Some (WSub l k) => let '(s1, e) := enqueue s i l k BNone in (with_thr s1 i WIdle, 60, e)
-  | Some WStop => let '(s1, e) := stop_mark s i (AWorker false) in (s1, 60, e)
-  | Some (Join (_ :: (w :: l) as l') q a) => (with_thr s i (Join l' q a), 62, [])
-  | Some (Join _ q a) => let '(s1, e) := stop_end s i q a in (s1, 62, e)
+  | Some WSleep => let '(s1, e) := worker_cs (wake s i) i in (s1, 61, e)
+  | Some (WSub l k r) => let '(s1, e) := enqueue s i l k [] in (with_thr s1 i (job_next r), 60, e)
+  | Some (WHop l r) => let '(s1, e) := enqueue s i l KHop r in (with_thr s1 i WIdle, 60, e)
+  | Some (WPeek l r) => (with_thr s i (if exit_ s then job_next r else WHop l r), 63, [])
+  | Some (WStop r) => let '(s1, e) := stop_mark s i (AWorker false r) in (s1, 60, e)
+  | Some (WQry q r) => (with_thr s i (job_next r), 60, [(Nat.b2n (qry_result s q), 10 + Z.of_nat q, i)])
+  | Some (Join (_ :: (w :: l) as l') q f a) => (with_thr s i (Join l' q f a), 62, [])
+  | Some (Join _ q f a) => let '(s1, e) := stop_end s i q f a in (s1, 62, e)
+  | Some (SWait l q a) =>
+      let s1 := wake s i in
+      if stopped s then let '(s2, e) := after_wait s1 i l q false a in (s2, 61, e) else (s1, 61, [])
+  | Some (SFin a) => let '(s1, e) := returned (finished s (sleeper_ids s)) i a in (s1, 60, e)
   | Some CDone | Some WExit | None => (s, 0, [])
   end.
+
+Definition tstep (s : st) (i : nat) : st * Z * list ev :=
+  let bad := match nth_error (thrs s) i with Some p => destroyed s && touches p | None => false end in
+  let '(s1, p, e) := core s i in
+  (if bad then with_uad s1 true else s1, p, e).
 
 Fixpoint enabled_list (s : st) (n : nat) (from : nat) : list nat :=
   match n with
@@ -201,7 +292,8 @@ Definition all_enabled (s : st) : list nat := enabled_list s (length (thrs s)) 0
 Definition ev_line (e : ev) : list Z :=
   let '(l, w, t) := e in [100; Z.of_nat l; w; Z.of_nat t; 0].
 
-(* run a schedule: choice k picks the (k mod |enabled|)-th enabled thread; an exhausted schedule continues with 0 *)
+(* run a schedule: choice k picks the (k mod |enabled|)-th enabled thread; an exhausted schedule continues with 0;
+   the run ends when nothing is enabled or a use of the destroyed pool was seen *)
 Fixpoint run_sched (fuel : nat) (s : st) (sched : list Z) (tr : list (list Z)) : st * list (list Z) :=
   match fuel with
   | O => (s, tr)
@@ -212,7 +304,8 @@ Fixpoint run_sched (fuel : nat) (s : st) (sched : list Z) (tr : list (list Z)) :
           let k := match sched with [] => 0 | x :: _ => Z.abs x end in
           let i := nth (Z.to_nat (k mod zlen en)) en 0%nat in
           let '(s1, p, e) := tstep s i in
-          run_sched f s1 (tl sched) (tr ++ [Z.of_nat i; p] :: map ev_line e)
+          if uad s1 then (s1, tr ++ [[Z.of_nat i; p]; [888; Z.of_nat i]])
+          else run_sched f s1 (tl sched) (tr ++ [Z.of_nat i; p] :: map ev_line e)
       end
   end.
 
@@ -225,47 +318,63 @@ Definition kind_of (z : Z) : option ckind :=
 Definition kind_code (k : ckind) : Z :=
   match k with KHop => 0 | KAwt => 1 | KRunFn => 2 | KDet => 3 | KResume => 4 | KRunAsync => 5 end.
 
-Record dec := mkDec { dn : nat; dj : nat; dmax : nat; dp0 : list cop; dp1 : list cop; dp2 : list cop }.
-
-Definition add_op (d : dec) (cl : Z) (o : cop) (j : nat) : dec :=
-  match cl with
-  | 0 => mkDec (dn d) j (dmax d) (dp0 d ++ [o]) (dp1 d) (dp2 d)
-  | 1 => mkDec (dn d) j (Nat.max (dmax d) 1) (dp0 d) (dp1 d ++ [o]) (dp2 d)
-  | _ => mkDec (dn d) j (Nat.max (dmax d) 2) (dp0 d) (dp1 d) (dp2 d ++ [o])
+(* body actions: 0..5 submit a closure of that kind, 6 stop(), 7 is_stopped(), 8 any_enqueued(), 9 co_await current().
+   The action at position idx of submission j creates label 100 + 10 j + idx.  Nothing follows a stop() (a job must
+   not touch the pool after it stopped it); at most 6 actions. *)
+Fixpoint dec_body (base : nat) (idx : nat) (l : list Z) : option body :=
+  match l with
+  | [] => Some []
+  | z :: r =>
+      if Nat.leb 6 idx then None else
+      match z with
+      | 6 => match r with [] => Some [AStop] | _ => None end
+      | 7 => option_map (cons (AQry 0)) (dec_body base (S idx) r)
+      | 8 => option_map (cons (AQry 1)) (dec_body base (S idx) r)
+      | 9 => option_map (cons (ACurHop (base + idx))) (dec_body base (S idx) r)
+      | _ => match kind_of z with
+             | Some k => option_map (cons (ASub k (base + idx))) (dec_body base (S idx) r)
+             | None => None
+             end
+      end
   end.
 
-(* ops:  [1; n] pool of n workers (1..4)      [2; client; kind; body; bkind] submission (body 0 none, 1 submit bkind, 2 stop)
-         [3; client] stop()                   [9; k1; k2; ...] schedule
-   the j-th accepted submission has label j, the closure its body submits has label 100+j *)
+Record dec := mkDec { dn : nat; dj : nat; dk : nat; dmax : nat; dp0 : list cop; dp1 : list cop; dp2 : list cop; dext : list nat }.
+
+Definition add_op (d : dec) (cl : Z) (o : cop) (j k : nat) (x : list nat) : dec :=
+  match cl with
+  | 0 => mkDec (dn d) j k (dmax d) (dp0 d ++ [o]) (dp1 d) (dp2 d) x
+  | 1 => mkDec (dn d) j k (Nat.max (dmax d) 1) (dp0 d) (dp1 d ++ [o]) (dp2 d) x
+  | _ => mkDec (dn d) j k (Nat.max (dmax d) 2) (dp0 d) (dp1 d) (dp2 d ++ [o]) x
+  end.
+
+(* ops:  [1; n]                       pool of n workers (1..4)
+         [2; client; kind; a1; ...]   submission by client 0..2 with a body of at most 6 actions (< 40 submissions)
+         [3; client]                  stop()            [4; client]   the client thread calls worker()   (< 30 of these two)
+         [9; k1; k2; ...]             schedule
+   the j-th accepted submission has label j *)
 Definition dec_op (d : dec) (op : list Z) : dec :=
   match op with
-  | [1; n] => if (1 <=? n) && (n <=? 4) then mkDec (Z.to_nat n) (dj d) (dmax d) (dp0 d) (dp1 d) (dp2 d) else d
-  | [2; cl; k; b; bk] =>
-      match kind_of k, kind_of bk with
-      | Some kk, Some kb =>
-          if (0 <=? cl) && (cl <=? 2) && (0 <=? b) && (b <=? 2) && Nat.ltb (dj d) 40 then
-            let bd := match b with
-                      | 0 => BNone
-                      | 1 => BSub kb (100 + dj d)
-                      | _ => if owned kk then BStop else BNone
-                      end in
-            add_op d cl (OSub (dj d) kk bd) (S (dj d))
-          else d
+  | [1; n] => if (1 <=? n) && (n <=? 4) then mkDec (Z.to_nat n) (dj d) (dk d) (dmax d) (dp0 d) (dp1 d) (dp2 d) (dext d) else d
+  | 2 :: cl :: k :: acts =>
+      match kind_of k, dec_body (100 + 10 * dj d) 0 acts with
+      | Some kk, Some bd =>
+          if (0 <=? cl) && (cl <=? 2) && Nat.ltb (dj d) 40 then add_op d cl (OSub (dj d) kk bd) (S (dj d)) (dk d) (dext d) else d
       | _, _ => d
       end
-  | [3; cl] => if (0 <=? cl) && (cl <=? 2) then add_op d cl OStop (dj d) else d
+  | [3; cl] => if (0 <=? cl) && (cl <=? 2) && Nat.ltb (dk d) 30 then add_op d cl OStop (dj d) (S (dk d)) (dext d) else d
+  | [4; cl] => if (0 <=? cl) && (cl <=? 2) && Nat.ltb (dk d) 30 then add_op d cl OWorker (dj d) (S (dk d)) (Z.to_nat cl :: dext d) else d
   | _ => d
   end.
-Definition decode (ops : list (list Z)) : dec := fold_left dec_op ops (mkDec 1 0 0 [] [] []).
+Definition decode (ops : list (list Z)) : dec := fold_left dec_op ops (mkDec 1 0 0 0 [] [] [] []).
 Definition decode_sched (l : list Z) : list Z := match l with 9 :: r => r | _ => [] end.
 
 Definition init (ops : list (list Z)) : st :=
   let d := decode ops in
   let m := Nat.min (S (dmax d)) 3 in       (* dmax <= 2 always *)
+  let n := Nat.max 1 (dn d) in             (* dn >= 1 always *)
   let progs := firstn m [dp0 d; dp1 d; dp2 d] in
   let cl := map (fun ip => next_client (fst ip) (snd ip)) (combine (seq 0 m) progs) in
-  let n := Nat.max 1 (dn d) in             (* dn >= 1 always *)
-  mkSt [] false (seq m n) 0 false m [] (cl ++ repeat WIdle n).
+  mkSt [] false false (seq m n) 0 [] false m [] (cl ++ repeat WIdle n) (repeat [] m) [] false.
 
 Definition unfinished (p : pc) : bool := match p with CDone | WExit => false | _ => true end.
 Fixpoint stuck_list (l : list pc) (i : nat) : list Z :=
@@ -282,41 +391,117 @@ Definition clo_line (x : clo) : list Z :=
 Definition find_lbl (l : nat) (cs : list clo) : option clo := find (fun x => Nat.eqb (clbl x) l) cs.
 Definition clo_lines (s : st) (j : nat) : list (list Z) :=
   flat_map (fun l => match find_lbl l (clos s) with Some x => [clo_line x] | None => [] end)
-           (seq 0 j ++ seq 100 j).
+           (seq 0 j ++ seq 100 (10 * j)).
+
+(* field f of closure c, d when c does not exist *)
+Definition G {A} (f : clo -> A) (d : A) (s : st) (c : nat) : A :=
+  match nth_error (clos s) c with Some x => f x | None => d end.
+(* is the thread executing a client program (as opposed to: inside worker()) *)
+Definition is_client_after (a : after) : bool := match a with AWorker _ _ => false | _ => true end.
+Definition is_client (p : pc) : bool :=
+  match p with
+  | CAt _ | CXWait | CDtor | CDone => true
+  | Join _ _ _ a | SWait _ _ a | SFin a => is_client_after a
+  | _ => false
+  end.
+
+(* ---------- a bound on the length of every run (proved in PoolTerm.v: every step decreases mu) ---------- *)
+Local Open Scope nat_scope.
+Section Weights.
+Context (K : nat).   (* number of threads *)
+
+Definition actw (a : act) : nat :=
+  match a with ASub _ _ => 8 | AStop => 4 * K + 20 | AQry _ => 2 | ACurHop _ => 12 end.
+Fixpoint bw (r : body) : nat := match r with [] => 0 | a :: r' => actw a + bw r' end.
+Definition opw (o : cop) : nat := match o with OSub _ _ b => 8 + bw b | OStop => 4 * K + 20 | OWorker => 4 end.
+Fixpoint progw (p : list cop) : nat := match p with [] => 0 | o :: r => opw o + progw r end.
+Definition endw (i : nat) : nat := if Nat.eqb i 0 then 4 * K + 22 else 0.
+(* weight of next_client i prog *)
+Definition ncw (i : nat) (prog : list cop) : nat :=
+  match prog with [] => if Nat.eqb i 0 then 4 * K + 21 else 0 | _ => 1 + progw prog + endw i end.
+(* weight of pc_after i a *)
+Definition aw (i : nat) (a : after) : nat :=
+  match a with AClient prog => ncw i prog | ADtor => 0 | AWorker true _ => 0 | AWorker false r => 2 + bw r end.
+
+Definition pcw (i : nat) (p : pc) : nat :=
+  match p with
+  | CAt prog => 1 + progw prog + endw i
+  | CXWait => 4 * K + 21
+  | CDtor => 4 * K + 20
+  | CDone => 0
+  | WIdle => 2
+  | WSleep => 1
+  | WSub _ _ r => 10 + bw r
+  | WHop _ r => 13 + bw r
+  | WPeek _ r => 14 + bw r
+  | WStop r => 4 * K + 22 + bw r
+  | WQry _ r => 4 + bw r
+  | WExit => 0
+  | Join l _ f a => 2 * length l + 3 + (if f then K + 3 else 0) + aw i a
+  | SWait l _ a => 2 * length l + 4 + aw i a
+  | SFin a => K + 3 + aw i a
+  end.
+End Weights.
+
+(* weight of thread i: its pc, plus (inside worker()) the client program it returns to *)
+Definition tw (s : st) (i : nat) (p : pc) : nat :=
+  let K := length (thrs s) in
+  pcw K i p + (if is_client p then 0 else ncw K i (nth i (cont s) [])).
+
+Fixpoint sumw (f : nat -> pc -> nat) (l : list pc) (from : nat) : nat :=
+  match l with [] => 0 | p :: r => f from p + sumw f r (S from) end.
+Definition clw (s : st) (c : nat) : nat := 3 + bw (length (thrs s)) (G cb [] s c).
+Fixpoint qw (s : st) (l : list nat) : nat := match l with [] => 0 | c :: r => clw s c + qw s r end.
+
+Definition mu (s : st) : nat := sumw (tw s) (thrs s) 0 + qw s (queue s) + tokens s + length (woken s).
+
+Local Open Scope Z_scope.
+
+(* no schedule can make more than mu (init ops) steps, so this fuel never runs out *)
+Definition run_fuel (ops : list (list Z)) : nat := mu (init ops).
+
 
 Definition pool_run (ops : list (list Z)) : list (list Z) :=
   let s0 := init ops in
   let sched := flat_map decode_sched ops in
-  let '(s, tr) := run_sched (length sched + 600) s0 sched [] in
+  let '(s, tr) := run_sched (run_fuel ops) s0 sched [] in
+  if uad s then tr else
   tr ++ (match stuck_list (thrs s) 0 with [] => [] | l => [777 :: l] end)
      ++ clo_lines s (dj (decode ops))
      ++ [[300; b2z (destroyed s); Z.of_nat (nclients s); zlen (thrs s)]].
 
 (* ---------- decidable form of C11 on an observed trace ---------- *)
-Definition is_clo_line (l : list Z) : bool := match l with 200 :: _ => true | _ => false end.
 Definition count_ev (lbl w : Z) (obs : list (list Z)) : nat :=
   length (filter (fun l => match l with [100; a; b; _; _] => Z.eqb a lbl && Z.eqb b w | _ => false end) obs).
 
+(* thread t may invoke closures: a pool thread, or a client thread that calls worker() *)
+Definition worker_tid (d : dec) (t : Z) : bool :=
+  let m := Z.of_nat (Nat.min (S (dmax d)) 3) in
+  let n := Z.of_nat (Nat.max 1 (dn d)) in
+  ((m <=? t) && (t <? m + n)) || ((0 <=? t) && (t <? m) && existsb (Nat.eqb (Z.to_nat t)) (dext d)).
+
 (* one closure line: exactly one outcome, the waiter saw exactly that outcome, it ran on a worker, and the
    event stream agrees with the counters *)
-Definition clo_ok (m : Z) (n : Z) (obs : list (list Z)) (l : list Z) : bool :=
+Definition clo_ok (d : dec) (obs : list (list Z)) (l : list Z) : bool :=
   match l with
   | [200; lbl; k; ran; canc; ws; on] =>
       Z.eqb (ran + canc) 1
       && Z.eqb ws (if Z.eqb ran 1 then 1 else 2)
-      && (if Z.eqb ran 1 then (m <=? on) && (on <? m + n) else Z.eqb on (-1))
+      && (if Z.eqb ran 1 then worker_tid d on else Z.eqb on (-1))
       && Nat.eqb (count_ev lbl 1 obs) (Z.to_nat ran)
-      && (match kind_of k with Some kk => if owned kk then Nat.eqb (count_ev lbl 2 obs) (Z.to_nat canc) else true | None => false end)
+      && Nat.eqb (count_ev lbl 2 obs) (Z.to_nat canc)
+      && (match kind_of k with Some _ => true | None => false end)
+  | 200 :: _ => false
   | _ => true
   end.
-Definition ev_ok (m n : Z) (l : list Z) : bool :=
+Definition ev_ok (d : dec) (l : list Z) : bool :=
   match l with
-  | [100; _; 1; t; locked] => (m <=? t) && (t <? m + n) && Z.eqb locked 0   (* invoked on a worker, outside the lock *)
-  | [100; _; 2; t; locked] => Z.eqb locked 0
+  | [100; _; 1; t; locked] => worker_tid d t && Z.eqb locked 0   (* invoked on a worker, outside the lock *)
+  | [100; _; _; t; locked] => Z.eqb locked 0
   | 100 :: _ => false
   | 666 :: _ => false          (* a thread reached a scheduling point while holding the pool mutex *)
   | 777 :: _ => false          (* deadlock *)
-  | 888 :: _ => false          (* a thread touched the pool after ~thread_pool returned *)
+  | 888 :: _ => false          (* a thread used the pool after ~thread_pool returned *)
   | _ => true
   end.
 (* every submission that the case declares at top level was made (labels 0..j-1 all present) *)
@@ -325,9 +510,7 @@ Definition has_lbl (obs : list (list Z)) (l : nat) : bool :=
 
 Definition pool_oracle (ops obs : list (list Z)) : bool :=
   let d := decode ops in
-  let m := Z.of_nat (S (dmax d)) in
-  let n := Z.of_nat (dn d) in
-  forallb (ev_ok m n) obs
-  && forallb (clo_ok m n obs) obs
+  forallb (ev_ok d) obs
+  && forallb (clo_ok d obs) obs
   && forallb (has_lbl obs) (seq 0 (dj d))
   && existsb (fun l => match l with [300; 1; _; _] => true | _ => false end) obs.
